@@ -14,6 +14,7 @@ EXPLANATION = (
     'and every fallible std call is tested or propagated; (4) nothing is parsed after a resolution error; (5) extension filter: a path is added '
     'to the list only on the is_file && is_slice_file edge, directories are descended into on the is_dir edge regardless of their name, and '
     'non-.slice files and source directories are reported. Decides these clauses, not behaviour on real directory trees.')
+THOROUGH_RERUN = ['release']     # the same rules over the release build (no debug assertions): verified clean on the pinned tree
 ASSUMPTIONS = ['rustc type checking and MIR construction', 'std::fs / Path::canonicalize behave as documented', 'read_dir order is OS-defined']
 FU = 'slicec::utils::file_util::'
 
